@@ -1091,6 +1091,24 @@ var kindRestricted = map[string]bool{"Len": true, "Cap": true, "Index": true, "I
 	"SetInt": true, "SetString": true, "SetLen": true, "OverflowInt": true, "OverflowFloat": true, "Pointer": true, "UnsafePointer": true,
 	"Recv": true, "Send": true, "Close": true}
 
+// containsBuilder: the type is strings.Builder or a struct holding one by value (embedded or as a field).
+func containsBuilder(t types.Type, depth int) bool {
+	if depth > 3 {
+		return false
+	}
+	if typeStr(t) == "strings.Builder" {
+		return true
+	}
+	if st, ok := t.Underlying().(*types.Struct); ok {
+		for i := 0; i < st.NumFields(); i++ {
+			if containsBuilder(st.Field(i).Type(), depth+1) {
+				return true
+			}
+		}
+	}
+	return false
+}
+
 // PANIC-LIB (C13/C01): standard-library calls that panic on a bad argument.
 func rulePANICLIB(c *Ctx, r *Report) {
 	const rule = "PANIC-LIB"
@@ -1132,6 +1150,30 @@ func rulePANICLIB(c *Ctx, r *Report) {
 										if prm, isParam := st.Val.(*ssa.Parameter); isParam {
 											n++
 											r.bad(rule, fnName(fn)+"|"+name+"|by-value "+prm.Name(), c.instrPos(in), fmt.Sprintf("%s writes into a strings.Builder that it received by value (inside %s): the Builder detects the copy and panics as soon as the caller has written to its own before, and what is written here never reaches the caller", fnName(fn), prm.Name()))
+										}
+									}
+								}
+							}
+						}
+					}
+					if (strings.HasPrefix(name, "fmt.Fprint") || name == "io.WriteString") && len(x.Call.Args) > 0 {
+						// the same through a writer interface: fmt.Fprintf(&w, …) with w a by-value parameter that is
+						// (or embeds) a strings.Builder
+						if mi, isBox := x.Call.Args[0].(*ssa.MakeInterface); isBox {
+							base := mi.X
+							for {
+								if fa, isFA := base.(*ssa.FieldAddr); isFA {
+									base = fa.X
+									continue
+								}
+								break
+							}
+							if al, isAlloc := base.(*ssa.Alloc); isAlloc && al.Referrers() != nil && containsBuilder(al.Type().Underlying().(*types.Pointer).Elem(), 0) {
+								for _, ref := range *al.Referrers() {
+									if st, isStore := ref.(*ssa.Store); isStore && st.Addr == al {
+										if prm, isParam := st.Val.(*ssa.Parameter); isParam {
+											n++
+											r.bad(rule, fnName(fn)+"|"+name+"|by-value "+prm.Name(), c.instrPos(in), fmt.Sprintf("%s writes (through %s) into a strings.Builder that it received by value (inside %s): the Builder detects the copy and panics as soon as the caller has written to its own before, and what is written here never reaches the caller", fnName(fn), name, prm.Name()))
 										}
 									}
 								}
